@@ -117,6 +117,12 @@ package chord
 //@   at after call Lock#2: ghost predL := n.predecessor
 //@   at after call Lock#2: ghost gotP := true
 //@   ensures local-refusal-changes-no-pointer: (local && err != nil) ==> ((gotP ==> n.predecessor == predL) && (gotS ==> n.surrogate == surrL))
+//@   ghost locksTaken int = 0
+//@   ghost unlocksDeferred int = 0
+//@   at call Lock#*: ghost locksTaken := locksTaken + 1
+//@   at defer Unlock#*: assert an-unlock-is-deferred-right-after-its-lock: unlocksDeferred + 1 == locksTaken
+//@   at defer Unlock#*: ghost unlocksDeferred := unlocksDeferred + 1
+//@   ensures local-no-lock-is-left-held-on-any-return: locksTaken == unlocksDeferred
 //@   ghost ranged int = 0
 //@   ghost inRange bool = false
 //@   at call Between#*: assert the-joiner-must-lie-strictly-between-the-predecessor-read-under-the-lock-and-this-node: gotP && predL != nil && callarg0 == predL.ID() && callarg1 == joiner.ID() && callarg2 == n.ID() && callarg3 == false
@@ -390,6 +396,12 @@ package chord
 //@   at call transferKeysDownward#*: assert keys-move-to-the-successor-only-under-both-locks: took && asked == 1 && rerr == nil && succReleased == 0 && localReleased == 0 && any(callarg2) == any(succ) && transfers == 0
 //@   at after call transferKeysDownward#*: ghost terr := callresult
 //@   at after call transferKeysDownward#*: ghost transfers := transfers + 1
+//@   ghost mus int = 0
+//@   ghost musDeferred int = 0
+//@   at call Lock#*: ghost mus := mus + 1
+//@   at defer Unlock#*: assert an-unlock-is-deferred-right-after-its-lock: musDeferred + 1 == mus
+//@   at defer Unlock#*: ghost musDeferred := musDeferred + 1
+//@   ensures local-no-mutex-is-left-held-on-any-return: mus == musDeferred
 //@   ensures local-a-failed-attempt-releases-every-lock-it-took: err != nil ==> ((took ==> localReleased == 1) && ((asked == 1 && rerr == nil) ==> succReleased == 1))
 //@   ensures local-success-keeps-both-locks-and-has-moved-the-keys: (err == nil && asked == 1) ==> (rerr == nil && took && localReleased == 0 && succReleased == 0 && transfers == 1 && terr == nil && cast(n.surrogate, "*LocalNode") == n)
 //@   ensures local-the-lone-node-shortcut-needs-both-neighbours-to-be-the-node-itself: (err == nil && asked == 0) ==> (pre != nil && succ != nil && pre.ID() == n.ID() && succ.ID() == n.ID() && tries == 0 && transfers == 0)
